@@ -112,8 +112,33 @@ func c12load(g *Gen, i int, tags []string, path string, files map[string]string,
 		write(dp, "dep.go", src)
 	}
 	p := parser.NewWithOptions(parser.Options{BuildTags: tags})
-	if err := p.LoadPackagesWithConfigForTesting(&packages.Config{Dir: dir, Env: append(os.Environ(), "GOFLAGS=-mod=mod", "GOWORK=off")}, path); err != nil {
+	pattern := path
+	if c12root != "" {
+		pattern = c12root + "/..."
+	}
+	if err := p.LoadPackagesWithConfigForTesting(&packages.Config{Dir: dir, Env: append(os.Environ(), "GOFLAGS=-mod=mod", "GOWORK=off")}, pattern); err != nil {
 		return nil, err
 	}
 	return p.NewUniverse()
+}
+
+// c06loadInto loads the requested packages of prog into the given universe (LoadPackagesTo).
+func c06loadInto(g *Gen, i int, prog []GenPkg, u *types.Universe) error {
+	dir := filepath.Join(os.Getenv("VERIF_WORK"), fmt.Sprintf("c06m%d", i))
+	defer os.RemoveAll(dir)
+	writeModule(dir, prog)
+	var pats []string
+	for _, gp := range prog {
+		if gp.Requested {
+			pats = append(pats, gp.Path)
+		}
+	}
+	cwd, _ := os.Getwd()
+	os.Chdir(dir)
+	defer os.Chdir(cwd)
+	os.Setenv("GOFLAGS", "-mod=mod")
+	os.Setenv("GOWORK", "off")
+	p := parser.New()
+	_, err := p.LoadPackagesTo(u, pats...)
+	return err
 }
